@@ -45,6 +45,17 @@ def get_mir(repo=REPO, debug_assertions=False):
         shutil.rmtree(scratch, ignore_errors=True)
 
 def run_scenario(args):
+    # a run that ends inconclusive *and* had feasibility checks time out during encoding (machine under load) is repeated once with a
+    # ten times longer limit per check: kept-but-infeasible states are the usual cause of spurious bound obligations
+    out = run_scenario_once(args, 3000)
+    if out['status'] == 'inconclusive' and out.get('stats', {}).get('prune_unknown', 0) > 0:
+        first = out
+        out = run_scenario_once(args, 30000)
+        out['notes'].append('second attempt (first attempt inconclusive with %d timed-out feasibility checks: %s)' % (first['stats']['prune_unknown'], '; '.join(first['notes'])[:160]))
+        out['wall_s'] = round(out['wall_s'] + first['wall_s'], 2)
+    return out
+
+def run_scenario_once(args, per_check_ms):
     spec, mirpath, tier = args
     t0 = time.time()
     out = {'name': spec['name'], 'status': 'ok', 'queries': [], 'violations': [], 'notes': []}
@@ -56,13 +67,13 @@ def run_scenario(args):
         from . import expr
         prog = load_program(open(mirpath).read(), REPO, spec.get('cap', 3))
         w = World(prog, spec['scen'], cap=spec.get('cap', 3)); w.build()
-        sol = IncSolver(per_check_ms=3000)
+        sol = IncSolver(per_check_ms=per_check_ms)
         w.m.pruner = sol
         w.run(R=spec['R'], B=spec['B'], order=spec.get('order'), seq=spec.get('seq'))
         out['encode_s'] = round(time.time() - t0, 2)
         out['stats'] = dict(nodes=nodes(), steps=w.m.stats['steps'], blocks=w.m.stats['blocks'], stmts=w.m.stats['stmts'],
                             sites=len(w.m.stats['sites']), pruned=w.m.stats.get('pruned', 0), prune_checks=sol.nchecks,
-                            prune_time=round(sol.time, 2), threads=len(w.m.threads) - 1, actvars=len(w.actvars),
+                            prune_time=round(sol.time, 2), prune_unknown=sol.nunknown, prune_retries=sol.nretries, threads=len(w.m.threads) - 1, actvars=len(w.actvars),
                             alloc_split=w.m.stats.get('alloc_split', 0), alloc_max=w.m.stats.get('alloc_max', 0))
         out['functions'] = sorted(set(w.m.fn_of(cp).name for (tid, (cp, b, ph)) in w.m.stats['sites'] if cp != 'END'))[:400]
         qt = spec.get('query_timeout', 300 if tier == 'quick' else 1800)
